@@ -39,7 +39,7 @@ fn c06_scn(name: &str, full: bool, preconfigured: bool) -> ChatScn {
     let mut s = ChatScn::new(name, cfg, vec![part(0, "vic", "vicky", "vu"), part(1, "alice", "alicia", "au"), part(2, "bob", "bobby", "bu")], 1);
     s.prelude = vec![(1, "OPER op oppw".into()), (1, "JOIN #x".into())];
     // the victim also leaves channels before its session ends (what it left must stay left)
-    let mut v: Vec<&'static str> = vec!["JOIN #x", "JOIN #y", "PART #y", "CAP END", "NICK {alt}", "MODE {me} +i", "MODE {me} +w", "AWAY :t", "INVITE bob #y"];
+    let mut v: Vec<&'static str> = vec!["JOIN #x", "JOIN #y", "PART #y", "CAP END", "NICK {alt}", "MODE {me} +i", "MODE {me} +ii", "MODE {me} +w", "AWAY :t", "INVITE bob #y"];
     if full {
         v.extend(["OPER op oppw", "JOIN #z", "PART #x", "JOIN #x,#y", "PART #x,#y", "CAP LS 302", "CAP REQ :multi-prefix", "PASS x", "USER again 0 * :again"]);
     }
